@@ -219,8 +219,22 @@ class SchulzZimm(RefDist):
     def p_less(self, x):
         return self.cdf(x)
 
+    def p_less_on_integers(self, x):
+        """P(T < x) for a draw from the documented 'density evaluated on integer masses': sum of the density over
+        the integers 0 <= k < x (this is what an inverse-cdf draw from the discretised law realises)."""
+        if not hasattr(self, "_cum"):
+            self._cum = [0.0]
+        n = max(0, math.ceil(x))  # integers 0 .. n-1 are < x
+        while len(self._cum) <= n:
+            k = len(self._cum) - 1
+            v = self.pdf(k) if k > 0 else (self.pdf(0) if self.z <= 1 else 0.0)
+            self._cum.append(self._cum[-1] + v)
+        return min(1.0, self._cum[n])
+
     def pdf(self, x):
         if x <= 0:
+            if x == 0 and self.z == 1:
+                return 1.0 / self.Mn
             return math.inf if (x == 0 and self.z < 1) else 0.0
         z, Mn = self.z, self.Mn
         return math.exp((z + 1) * math.log(z) - math.lgamma(z + 1) + (z - 1) * math.log(x) - z * math.log(Mn) - z * x / Mn)
